@@ -39,9 +39,10 @@ Definition build_pipeline (legacy : bool) (tasks pnames : list nat) (stages : li
   | Some (names, _) => legacy || deps_known names stages
   end.
 
-(* the pipelines a pipeline includes: stages that name no task but a pipeline *)
+(* the pipelines a pipeline includes: the stages that name no task refer to cfg.Pipelines[def.Pipeline] - also when that name is the
+   empty string (a pipeline may be called ""): repair F20 closed the hole `&& stage.Pipeline != ""` of the first inclusion check *)
 Definition includes (stages : list stagedef) : list nat :=
-  map sd_pipeline (filter (fun s => Nat.eqb (sd_task s) 0 && negb (Nat.eqb (sd_pipeline s) 0)) stages).
+  map sd_pipeline (filter (fun s => Nat.eqb (sd_task s) 0) stages).
 Definition inclusion_decls (d : defn) : list stage_decl := map (fun p => (fst p, includes (snd p))) (df_pipelines d).
 
 Definition build_def (legacy : bool) (d : defn) : bool :=
